@@ -9,6 +9,7 @@ from ..flow import bool_branch, edge_dominates, must_pass, flow_forward
 from ..mir import op_base, op_const, const_int, short
 from ..facts import REPO
 from .panics import canon, _cmp_facts, resolve_place
+from ..mir import op_place
 
 _cache = {}
 
@@ -534,3 +535,143 @@ def a_set_rules_callers_fresh(prog):
             if not any(n in ("rules",) for n in names if n):
                 return False, "set_rules at %s receives rules that are not freshly deserialised" % c.where()
     return True, "set_rules is called with freshly deserialised rules (%d call sites)" % len(callers)
+
+
+def a_lb_cycle_check(prog):
+    fs = [prog.body_of(f) for f in prog.find(r"LoadBalanceConnector as connectors::Connector>::verify$", "redproxy_rs")]
+    if len(fs) != 1:
+        return False, "LoadBalanceConnector::verify not found"
+    f = fs[0]
+    mem = [c for c in f.calls if re.search(r"connectors::Connector::members$", c.path or "")]
+    ins = [c for c in f.calls if re.search(r"HashSet::<[^>]*>::insert$", c.path or "")]
+    pops = [c for c in f.calls if re.search(r"Vec::<T, A>::pop$", c.path or "")]
+    if not mem or not ins or not pops:
+        return False, "verify() does not walk the member graph (members()/visited set/worklist missing)"
+    def loopy(b):
+        return b in f.reach_from(f.succ[b])
+    if not all(loopy(c.bb) for c in mem + ins + pops):
+        return False, "the member walk in verify() is not a loop"
+    # a comparison with the group's own name that leads to an error exit
+    cmp_self = []
+    for c in f.calls:
+        if re.search(r"cmp::PartialEq::(eq|ne)$", c.path or "") and len(c.args) == 2:
+            txt = str(f.trace(op_base(c.args[0]))) + str(f.trace(op_base(c.args[1])))
+            if "f:name" in txt:
+                cmp_self.append(c)
+    if not cmp_self or not all(loopy(c.bb) for c in cmp_self):
+        return False, "verify() does not compare the visited members with the group's own name"
+    for c in cmp_self:
+        if not bool_branch(f, c.dest[0]):
+            return False, "the self-containment test is not branched on"
+    # LoadBalanceConnector overrides members()
+    ov = prog.find(r"LoadBalanceConnector as connectors::Connector>::members$", "redproxy_rs")
+    if len(ov) != 1 or "f:connectors" not in str([st for b in ov[0].reachable for st in ov[0].stmts(b)]):
+        return False, "LoadBalanceConnector does not report its members"
+    return True, "verify() walks members() transitively with a visited set and rejects a group that reaches itself"
+
+
+# --------------------------------------------------------------------------- fragment bitmap / fragmenter shape
+
+def a_fragment_bitmap_guard(prog):
+    """ReassembleQueue: every bit >= total is pre-set by new() and add_fragment indexes only under the clear-bit test,
+    so a later fragment whose seq exceeds the queue's own total can never index the slot vector"""
+    nw = prog.one(r"^common::fragment::ReassembleQueue::new$")
+    af = prog.one(r"^common::fragment::ReassembleQueue::add_fragment$")
+    # (1) bitmap = (!0 << total) | (1 << seq)
+    ones = set()
+    for b in nw.reachable:
+        for st in nw.stmts(b):
+            if st["k"] == "assign" and len(st["lhs"]) == 1 and st["rv"]["k"] == "unop" and st["rv"]["op"] == "Not" and const_int(st["rv"]["a"]) == 0:
+                ones.add(st["lhs"][0])
+            if st["k"] == "assign" and len(st["lhs"]) == 1 and st["rv"]["k"] == "use" and const_int(st["rv"]["a"]) == 2**128 - 1:
+                ones.add(st["lhs"][0])
+    high = None
+    ors = []
+    vec_len = None
+    for c in nw.calls:
+        if re.search(r"alloc::vec::from_elem$", c.path or "") and len(c.args) == 2:
+            vec_len = canon(nw, c.args[1])
+    for b in nw.reachable:
+        for st in nw.stmts(b):
+            if st["k"] == "assign" and len(st["lhs"]) == 1 and st["rv"]["k"] == "binop":
+                rv = st["rv"]
+                if rv["op"] == "Shl" and (op_base(rv["a"]) in ones or const_int(rv["a"]) == 2**128 - 1):
+                    if vec_len is not None and canon(nw, rv["b"]) == vec_len:
+                        high = st["lhs"][0]
+                if rv["op"] == "BitOr":
+                    ors.append((st["lhs"][0], op_base(rv["a"]), op_base(rv["b"])))
+    if high is None:
+        return False, "ReassembleQueue::new no longer pre-sets the bitmap bits at and above `total` (the slot count): the clear-bit test in add_fragment no longer bounds the index"
+    tracked, _ = flow_forward(nw, [high], [])
+    seeds2 = [res for (res, a, b) in ors if a in tracked or b in tracked]
+    if seeds2:
+        t2, _ = flow_forward(nw, seeds2, [])
+        tracked = dict(tracked)
+        tracked.update(t2)
+    in_field = False
+    for b in nw.reachable:
+        for st in nw.stmts(b):
+            if st["k"] == "assign" and st["rv"]["k"] == "agg" and st["rv"].get("def") == "common::fragment::ReassembleQueue":
+                o = st["rv"]["ops"][st["rv"]["fields"].index("bitmap")]
+                in_field = op_base(o) in tracked
+    if not in_field:
+        return False, "the pre-set high bits do not flow into ReassembleQueue.bitmap"
+    # (2) add_fragment: index dominated by (bitmap & (1 << this)) == 0
+    idx = [c for c in af.calls if re.search(r"ops::index::IndexMut::index_mut$|ops::index::Index::index$", c.path or "")]
+    if not idx:
+        return False, "add_fragment no longer indexes the slot vector"
+    ok = False
+    for (sb, tb, cop, a, b) in _cmp_facts(af):
+        if cop == "Eq" and 0 in (const_int(a), const_int(b)):
+            other = a if const_int(b) == 0 else b
+            d = af.single_def(op_base(other)) if op_base(other) is not None else None
+            if d and d[1] != "term" and d[2]["k"] == "binop" and d[2]["op"] == "BitAnd":
+                txt = str(af.trace(op_base(d[2]["a"]))) + str(af.trace(op_base(d[2]["b"]))) + str(d[2])
+                if "f:bitmap" in txt and all(edge_dominates(af, sb, tb, c.bb) for c in idx):
+                    # the shifted amount and the index are the same value
+                    ok = True
+    if not ok:
+        return False, "add_fragment indexes the slot vector outside the `bitmap & (1 << seq) == 0` edge"
+    return True, "bits >= total are pre-set by new() (vector length = total) and add_fragment indexes only under the clear-bit test"
+
+
+def a_make_fragments_next_shape(prog):
+    fs = prog.find(r"MakeFragments<T> as core::iter::traits::iterator::Iterator>::next$", "redproxy_rs")
+    if len(fs) != 1:
+        return False, "MakeFragments::next not found"
+    f = fs[0]
+    cap = [c for c in f.calls if re.search(r"BytesMut::with_capacity$", c.path or "")]
+    mn = [c for c in f.calls if re.search(r"cmp::Ord::min$", c.path or "")]
+    adv = [c for c in f.calls if re.search(r"BufMut::advance_mut$", c.path or "")]
+    puts = [c for c in f.calls if re.search(r"BufMut::put_(u8|u16|u32)$", c.path or "")]
+    cts = [c for c in f.calls if re.search(r"Buf::copy_to_slice$", c.path or "")]
+    if len(cap) != 1 or len(mn) != 1 or len(adv) != 1 or len(cts) != 1:
+        return False, "MakeFragments::next no longer has the shape with_capacity / min / advance_mut / copy_to_slice"
+    W = {"u8": 1, "u16": 2, "u32": 4}
+    hdr = sum(W[re.search(r"put_(\w+)$", c.path).group(1)] for c in puts if f.dominates(c.bb, adv[0].bb))
+    if "f:mtu" not in str(f.trace(op_base(cap[0].args[0]))) + str(cap[0].args[0]):
+        return False, "the fragment buffer is not allocated with capacity mtu"
+    # min(remaining, mtu - hdr)
+    sub_ok = False
+    for a in mn[0].args:
+        l = op_base(a)
+        for k, info in (f.trace(l) if l is not None else []):
+            if k == "place" and len(info) == 2 and info[1] == "f:0":
+                d = f.single_def(info[0])
+                if d and d[1] != "term" and d[2]["k"] == "binop" and d[2]["op"].startswith("Sub") and const_int(d[2]["b"]) == hdr and "f:mtu" in str(f.trace(op_base(d[2]["a"]))) + str(d[2]["a"]):
+                    sub_ok = True
+    rem_ok = any(re.search(r"Buf::remaining$", (f.def_call(op_base(a)).path if op_base(a) is not None and f.def_call(op_base(a)) else "") or "") for a in mn[0].args)
+    if not sub_ok or not rem_ok:
+        return False, "data_len is no longer min(remaining, mtu - %d)" % hdr
+    if canon(f, adv[0].args[1]) != canon(f, {"c": [mn[0].dest[0]]}) and op_base(adv[0].args[1]) not in flow_forward(f, [mn[0].dest[0]], [])[0]:
+        return False, "advance_mut is not passed data_len"
+    # copy target is &mut buf[hdr..]
+    ix = [c for c in f.calls if re.search(r"ops::index::IndexMut::index_mut$", c.path or "")]
+    ok = False
+    for c in ix:
+        d = f.single_def(op_base(c.args[1])) if op_base(c.args[1]) is not None else None
+        if d and d[1] != "term" and d[2]["k"] == "agg" and d[2].get("def", "").endswith("RangeFrom") and f.int_of(d[2]["ops"][0]) == hdr:
+            ok = True
+    if not ok:
+        return False, "payload is not copied to buf[%d..]" % hdr
+    return True, "buffer capacity mtu, %d header bytes, data_len = min(remaining, mtu-%d), payload copied to buf[%d..]" % (hdr, hdr, hdr)
